@@ -188,6 +188,14 @@ func Or(a, b bool) bool      { return a || b }
 func Not(a bool) bool        { return !a }
 func Implies(a, b bool) bool { return !a || b }
 
+// B2I converts a condition to 0/1 without branching (one ite term under the symbolic executor).
+func B2I(c bool) int {
+	if c {
+		return 1
+	}
+	return 0
+}
+
 func EqBytes(a, b []byte) bool { return string(a) == string(b) }
 func EqStr(a, b string) bool   { return a == b }
 
